@@ -46,6 +46,7 @@ struct Rec {
     next: Mutex<u64>,
     stack: Mutex<Vec<u64>>,
     refs: Mutex<std::collections::HashMap<u64, usize>>,
+    metas: Mutex<std::collections::HashMap<u64, &'static Metadata<'static>>>,
 }
 impl Rec {
     fn ours(m: &Metadata<'_>) -> bool {
@@ -84,6 +85,7 @@ impl Collect for Rec {
         };
         self.refs.lock().unwrap().insert(id, 1);
         let m = a.metadata();
+        self.metas.lock().unwrap().insert(id, m);
         let mut fields = vec![];
         a.record(&mut V(&mut fields));
         let parent = if a.is_root() { 0 } else if let Some(p) = a.parent() { p.into_u64() } else { self.cur() };
@@ -134,8 +136,15 @@ impl Collect for Rec {
             false
         }
     }
+    // a collector that knows its current span (as the registry does): Span::current() / or_current() see the entered span
     fn current_span(&self) -> Current {
-        Current::unknown()
+        match self.stack.lock().unwrap().last() {
+            Some(id) => match self.metas.lock().unwrap().get(id) {
+                Some(m) => Current::new(Id::from_u64(*id), m),
+                None => Current::none(),
+            },
+            None => Current::none(),
+        }
     }
 }
 
@@ -220,7 +229,7 @@ fn main() {
             if mode == "none" {
                 run_calls(&cs, &schedule, outer, false)
             } else {
-                let d = Dispatch::new(Rec { mode, next: Mutex::new(0), stack: Mutex::new(vec![]), refs: Mutex::new(Default::default()) });
+                let d = Dispatch::new(Rec { mode, next: Mutex::new(0), stack: Mutex::new(vec![]), refs: Mutex::new(Default::default()), metas: Mutex::new(Default::default()) });
                 dispatch::with_default(&d, || run_calls(&cs, &schedule, outer, true))
             }
         };
